@@ -2,7 +2,8 @@
 # tools/confirm_seed.sh ID  -- confirm a seeded change produced by a mutation sub-agent in /tmp/wt-ID:
 # (1) it compiles, (2) the demo fails with it and passes without it, (3) the existing suite passes with it.
 # Writes /tmp/wt-ID-out/confirm.log and prints a one-line verdict.
-ID=$1; WT=/tmp/wt-$ID; OUT=/tmp/wt-$ID-out; LOG=$OUT/confirm.log
+ID=$1; WT=${WTPREFIX:-/tmp/wt-}$ID; OUT=${WTPREFIX:-/tmp/wt-}$ID-out; LOG=$OUT/confirm.log
+export TMPDIR=$(mktemp -d /tmp/confirm-$ID.XXXX)
 PY=/venv/bin/python
 INC=$($PY -c 'import sysconfig;print(sysconfig.get_paths()["include"])')
 exec > $LOG 2>&1
@@ -34,7 +35,7 @@ echo "== demo without change"
 git diff > $OUT/patch.restore.diff; git checkout -q -- .
 build; (cd $OUT && timeout 900 $RUN); dc=$?; echo "demo exit clean: $dc"
 git apply $OUT/patch.restore.diff; rm -f $OUT/patch.restore.diff
-rm -rf $D
+rm -rf $D $TMPDIR
 xd=$(tail -1 $OUT/suite_par.txt | grep -oE "[0-9]+ (passed|failed)" | tr '\n' ' ')
 sr=$(tail -1 $OUT/suite_ser.txt | grep -oE "[0-9]+ (passed|failed)" | tr '\n' ' ')
 echo "VERDICT $ID demo_with=$dw demo_clean=$dc xdist=[$xd] serial_rerun_of_xdist_failures=[$sr]"
